@@ -1,0 +1,25 @@
+//go:build verif
+
+package core
+
+import (
+	"github.com/linkedin/Burrow/core/protocol"
+)
+
+// Verification hooks (build tag "verif" only).
+
+// VerifConfigure runs the configuration phase of Start (newCoordinators + configureCoordinators) on the
+// configuration currently loaded in viper. It returns app.ConfigurationValid and the value of a panic that
+// escaped configureCoordinators, if any.
+func VerifConfigure(app *protocol.ApplicationContext) (valid bool, escaped interface{}) {
+	defer func() {
+		if r := recover(); r != nil {
+			valid, escaped = false, r
+		}
+	}()
+	app.EvaluatorChannel = make(chan *protocol.EvaluatorRequest)
+	app.StorageChannel = make(chan *protocol.StorageRequest)
+	coordinators := newCoordinators(app)
+	configureCoordinators(app, coordinators)
+	return app.ConfigurationValid, nil
+}
